@@ -152,12 +152,11 @@ def _plane_nd(deck_surfs, sid, trs=None, facet=None):
     k = s['kind'].lower()
     p = s['params']
     if facet is not None:
-        if k != 'rpp':
-            raise ModelError('lattice facets are modelled for RPP only')
-        ax = (facet - 1) // 2
-        n = np.zeros(3)
-        n[ax] = 1.0
-        n_, d_ = n, p[2 * ax + (1 if facet % 2 == 1 else 0)]
+        try:
+            n_, d_ = mgeom.facet_planes(k, p)[facet - 1]
+        except (mgeom.ModelError, IndexError):
+            raise ModelError('facet %r of %s is not a lattice plane'
+                             % (facet, k))
     elif k in ('px', 'py', 'pz'):
         n = np.zeros(3)
         n[mgeom.AXIS[k[1]]] = 1.0
@@ -329,6 +328,13 @@ class Locator:
 
     def _leaves(self, expr, with_facets=False):
         if expr[0] == 's':
+            s_ = self.surfs.get(abs(expr[1]))
+            if with_facets and expr[1] < 0 and s_ is not None and \
+                    s_['kind'].lower() in ('rpp', 'box', 'rhp', 'hex'):
+                # a whole body bounding a lattice cell stands for its facets
+                # in facet order
+                nf = 6 if s_['kind'].lower() in ('rpp', 'box') else 8
+                return [(expr[1], k) for k in range(1, nf + 1)]
             return [(expr[1], None)] if with_facets else [expr[1]]
         if expr[0] == 'f' and with_facets:
             return [(expr[1], expr[2])]
